@@ -26,6 +26,10 @@ H = Harness("C10", ["OQ.Base.CaseEq", "OQ.Stats.Measure", "OQ.Stats.MeasureCases
             "the model on the shots it then holds; '-samecount' = some step kept the number of shots); "
             "'-wide' = registers of 65-90 qubits with few shots whose distinct bitstrings differ only on qubits >= 64 and "
             "operators on those qubits (about 6 percent of the stream, for expval / counts / distribution / parities / efreq); "
+            "coefficient types are a generator dimension for expval and history: unlabelled = every coefficient a Python float; "
+            "'-c:int' = every coefficient a Python int, '-c:npint64'/'-c:npint32' = numpy integers, '-c:float+int' / "
+            "'-c:complex+int' = integers with one float / one complex coefficient of zero imaginary part (at least two "
+            "terms, about a third of the expval and history cases); "
             "non-trivial = at least two distinct bitstrings among at least two shots (and at least two terms where an "
             "operator is involved)")
 
@@ -43,8 +47,30 @@ def cres(st, val, f): return f"(Ok {f(val)})" if st == "ok" else (f"(Err {val})"
 def cqmat(m): return clist(m, lambda row: clist(row, cq))
 def pow2(n): return n >= 1 and n & (n - 1) == 0
 
-def mk_op(op, as_term=False):
-    terms = [PauliTerm({q: p for q, p in ops}, float(Fraction(*c))) for c, ops in op]
+def mk_coef(c, ctype):
+    """The numeric type a coefficient is handed to PauliTerm in (a generator dimension)."""
+    fr = Fraction(*c)
+    if ctype == "float":
+        return float(fr)
+    if ctype == "complex":
+        return complex(float(fr), 0.0)
+    assert fr.denominator == 1, (c, ctype)
+    if ctype == "int":
+        return int(fr)
+    if ctype == "npint64":
+        return np.int64(int(fr))
+    if ctype == "npint32":
+        return np.int32(int(fr))
+    raise ValueError(ctype)
+
+def ctype_label(ctypes):
+    """all-float operators (the default) carry no label"""
+    ts = sorted(set(ctypes or []))
+    return "" if not ts or ts == ["float"] else "-c:" + "+".join(ts)
+
+def mk_op(op, as_term=False, ctypes=None):
+    ctypes = ctypes or ["float"] * len(op)
+    terms = [PauliTerm({q: p for q, p in ops}, mk_coef(c, t)) for (c, ops), t in zip(op, ctypes)]
     if as_term and len(terms) == 1:
         return terms[0]
     return PauliSum(terms)
@@ -130,7 +156,10 @@ def gen_history(rng):
     op = gen_op(rng, w, 3)
     if not op:
         op = [[[3, 4], [[0, "Z"]]]]
-    return dict(kind="history", shots=shots, steps=steps, op=op)
+    inp = dict(kind="history", shots=shots, steps=steps, op=op)
+    if rng.random() < 0.3:
+        inp["ctypes"] = gen_ctypes(rng, op, w)
+    return inp
 
 def gen_n(rng):
     return rng.choice([1, 2, 4, 8, 16, 32, 64, 128, 256]) if rng.random() < 0.6 else rng.randint(1, 200)
@@ -152,6 +181,31 @@ def gen_op(rng, w, maxterms=5):
         c = dyadic(rng, 64, 4, allow_zero=rng.random() < 0.1)
         op.append([[c.numerator, c.denominator], [[q, "Z"] for q in s]])
     return op
+
+def gen_ctypes(rng, op, w):
+    """Give the terms of op numeric coefficient types: all Python int, all numpy integer, int + float,
+    int + complex with zero imaginary part; integer-typed terms get small integer coefficients (in place).
+    At least two terms, so that off-diagonal correlations exist."""
+    while len(op) < 2:
+        s = sorted(rng.sample(range(w), rng.randint(1, min(w, 2))))
+        op.append([[1, 1], [[q, "Z"] for q in s]])
+    r = rng.random()
+    if r < 0.45:
+        ctypes = ["int"] * len(op)
+    elif r < 0.6:
+        ctypes = [rng.choice(["npint64", "npint32"])] * len(op)
+    elif r < 0.7:
+        ctypes = [rng.choice(["int", "npint64"]) for _ in op]
+    elif r < 0.85:
+        ctypes = ["int"] * len(op)
+        ctypes[rng.randrange(len(op))] = "float"
+    else:
+        ctypes = ["int"] * len(op)
+        ctypes[rng.randrange(len(op))] = "complex"
+    for t, ct in zip(op, ctypes):
+        if ct in ("int", "npint64", "npint32"):
+            t[0] = [rng.choice([-7, -3, -2, -1, 1, 1, 2, 3, 5, 12]), 1]
+    return ctypes
 
 def gen_invalid(rng):
     """Inputs on which get_expectation_values / get_parities must not return statistics."""
@@ -213,6 +267,18 @@ FIXED = [
     dict(kind="counts", shots=["1" * 65, "1" * 64 + "0", "1" * 65], wide=True),
     dict(kind="distribution", shots=["01" * 40, "01" * 39 + "11", "01" * 40, "01" * 39 + "00"], wide=True),
     dict(kind="parities", shots=["0" * 66, "0" * 65 + "1", "0" * 64 + "10"], op=[[[1, 1], Z(64)], [[1, 1], Z(65)], [[2, 1], Z(0, 65)]], why=None, wide=True),
+    # coefficient types: all Python int / numpy integers / int + float / int + complex, on samples where
+    # c_i * c_j * mean is not an integer
+    dict(kind="expval", shots=["00", "01", "10", "00"], op=[[[2, 1], Z(0)], [[1, 1], Z(1)], [[3, 1], Z(0, 1)]],
+         bessel=False, as_term=False, ctypes=["int", "int", "int"]),
+    dict(kind="expval", shots=["00", "01", "10", "00"], op=[[[2, 1], Z(0)], [[1, 1], Z(1)], [[3, 1], Z(0, 1)]],
+         bessel=True, as_term=False, ctypes=["int", "int", "int"]),
+    dict(kind="expval", shots=["000", "011", "101", "000", "110", "000", "001", "000"], op=[[[-3, 1], Z(0, 2)], [[5, 1], Z(1)]],
+         bessel=False, as_term=False, ctypes=["npint64", "npint64"]),
+    dict(kind="expval", shots=["00", "01", "10", "00"], op=[[[2, 1], Z(0)], [[1, 1], Z(1)], [[3, 2], Z(0, 1)]],
+         bessel=False, as_term=False, ctypes=["int", "int", "float"]),
+    dict(kind="expval", shots=["00", "01", "10", "00"], op=[[[2, 1], Z(0)], [[1, 1], Z(1)], [[3, 1], []]],
+         bessel=True, as_term=False, ctypes=["int", "complex", "int"]),
     # one object queried, changed without changing the number of shots, queried again
     dict(kind="history", shots=["00", "00", "01", "00"], op=[[[1, 1], Z(0)], [[1, 2], Z(0, 1)], [[-3, 4], Z(1)]],
          steps=[dict(act="replace", shots=["11", "10", "11", "11"]), dict(act="edit", i=1, shot="01"),
@@ -244,8 +310,11 @@ def gen(rng, tier):
         if r < 0.40:
             w = rng.randint(1, 8)
             shots = gen_shots(rng, w, gen_n(rng))
-            yield dict(kind="expval", shots=shots, op=gen_op(rng, w), bessel=rng.random() < 0.4,
-                       as_term=rng.random() < 0.3)
+            op = gen_op(rng, w)
+            inp = dict(kind="expval", shots=shots, op=op, bessel=rng.random() < 0.4, as_term=rng.random() < 0.3)
+            if rng.random() < 0.35:
+                inp["ctypes"] = gen_ctypes(rng, op, w)
+            yield inp
         elif r < 0.50:
             shots, op, why = gen_invalid(rng)
             yield dict(kind="expval", shots=shots, op=op, bessel=(why == "oneshot") or rng.random() < 0.3,
@@ -323,7 +392,7 @@ def run_expval(inp, held=None):
     with warnings.catch_warnings():
         warnings.simplefilter("ignore")
         obj = held if held is not None else Measurements(list(sh))
-        st, out = outcome(lambda: obj.get_expectation_values(mk_op(op, inp.get("as_term")), bessel), timeout=20)
+        st, out = outcome(lambda: obj.get_expectation_values(mk_op(op, inp.get("as_term"), inp.get("ctypes")), bessel), timeout=20)
     valid, must = valid_for_expval(shots, op)
     kind = "expval"
     nontrivial = n >= 2 and len(set(sh)) >= 2 and m >= 2
@@ -333,10 +402,13 @@ def run_expval(inp, held=None):
         chk = f"expval_eqb {cq(tol)} {cshots(shots)} {cop(op)} {cbool(bessel)} {lit}" if lit else "false"
         return dict(chk=chk, oracle_ok=ok, oracle_msg="" if ok else f"raised {out} on {'valid' if valid else 'invalid'} input",
                     kind=kind + "-err-" + str(inp.get("why")), nontrivial=nontrivial)
-    vals = [float(x) for x in np.asarray(out.values).reshape(-1)]
+    cvals = [complex(x) for x in np.asarray(out.values).reshape(-1)]
+    vals = [x.real for x in cvals]
     corr = np.asarray(out.correlations[0])
     cov = np.asarray(out.estimator_covariances[0])
     msgs = []
+    if any(x.imag != 0 for x in cvals):
+        msgs.append("imaginary parts in the values for real coefficients")
     if not valid:
         msgs.append("statistics returned for an invalid input")
     if len(out.correlations) != 1 or len(out.estimator_covariances) != 1 or len(vals) != m \
@@ -380,6 +452,7 @@ def run_expval(inp, held=None):
         kind += "-err-" + inp["why"]
     else:
         kind += ("-exact" if exact else "-tol") + ("-bessel" if bessel else "")
+    kind += ctype_label(inp.get("ctypes"))
     return dict(chk=chk, oracle_ok=not msgs, oracle_msg="; ".join(msgs[:3]), kind=kind, nontrivial=nontrivial)
 
 def run_efreq(inp):
@@ -550,8 +623,8 @@ def run_history(inp):
         if held != cur:
             msgs.append(f"step {k} ({act}): the object holds {held[:6]}.. instead of {cur[:6]}..")
         results = [run_distribution(dict(shots=held), m),
-                   run_expval(dict(shots=held, op=op, bessel=False), m),
-                   run_expval(dict(shots=held, op=op, bessel=True), m),
+                   run_expval(dict(shots=held, op=op, bessel=False, ctypes=inp.get("ctypes")), m),
+                   run_expval(dict(shots=held, op=op, bessel=True, ctypes=inp.get("ctypes")), m),
                    run_counts(dict(shots=held), m)]
         for name, r in zip(("distribution", "expectation values", "expectation values (Bessel)", "counts"), results):
             chks.append(r["chk"] if r["chk"] is not None else "true")
@@ -561,7 +634,7 @@ def run_history(inp):
             msgs.append(f"step {k}: a query modified the stored shots")
     same = any(a in ("replace", "edit") for a in acts)
     return dict(chk=" && ".join(f"({c})" for c in chks), oracle_ok=not msgs, oracle_msg="; ".join(msgs[:3]),
-                kind="history" + ("-samecount" if same else "-growing"),
+                kind="history" + ("-samecount" if same else "-growing") + ctype_label(inp.get("ctypes")),
                 nontrivial=len(acts) >= 2 and len(set(inp["shots"])) >= 2 and len(op) >= 1)
 
 def _wide(inp, r):
